@@ -120,6 +120,7 @@ def _half_copy(src, dst):
 def child_main(inp_path, out_path, tmpdir, mode, method, plan, log_path, extra_argv=()):
     """runs in the forked child; never returns"""
     code = 3
+    cov = _child_coverage_start()
     try:
         tm = tagger.tagger_module()
         import singlecellmultiomics.bamProcessing.bamFunctions as bf
@@ -165,7 +166,34 @@ def child_main(inp_path, out_path, tmpdir, mode, method, plan, log_path, extra_a
     except BaseException:
         code = 4
     finally:
+        _child_coverage_stop(cov)
         os._exit(code)
+
+
+def _child_coverage_start():
+    """audit aid (tools/coverage_audit.py): the code under test runs in forked children which leave through os._exit, so the
+    child records its own coverage file (kills lose theirs; the exception kinds walk the same paths)"""
+    cov_dir = os.environ.get('VERIF_COVERAGE')
+    if not cov_dir:
+        return None
+    import coverage
+    from mc import bind
+    cur = coverage.Coverage.current()
+    if cur is not None:
+        cur.stop()
+    cov = coverage.Coverage(data_file=os.path.join(cov_dir, f'cov.c20child.{os.getpid()}'), branch=True,
+                            include=[os.path.join(bind.REPO, 'singlecellmultiomics', '*')])
+    cov.start()
+    return cov
+
+
+def _child_coverage_stop(cov):
+    if cov is not None:
+        try:
+            cov.stop()
+            cov.save()
+        except Exception:
+            pass
 
 
 BADARGS = {'region': ['-region_start', '5'],                    # -region_start without -region_end
